@@ -194,4 +194,18 @@ EXTRA_PROGRAMS = [
     # a prefix ++ / -- statement directly behind the `}` of the previous statement
     'if (a) { b; } ++c;',
     'for (;;) {} --d;\ntry {} finally {} ++e;',
+    # array literals with holes inside array literals
+    'x = [[1, , ], 2];\ny = [[1, , ], [2]];\nz = [[, ], , [, , 3], [[, 4, , ]]];',
+    # many function expressions closing together, then another statement
+    'a = function () { b = function () { c = function () { d = function () { e = function () { f = function () { g = function () { h(); }; }; }; }; }; }; };\ndone();',
+    'p = function () { q = function () { r = function () { s = function () { t = function () { u = function () { v = function () { w = function () { k(); }; }; }; }; }; }; }; };\ndone();',
 ]
+
+def _closing_run(depth):
+    """h0 = function () { h1 = function () { ... hN = function () { }; ... }; }; done();  -- `depth` statements end at the same place"""
+    return ''.join('h%d = function () { ' % i for i in range(depth)) + '}; ' * depth + 'done();'
+
+
+# long runs of layout-only chunks of every length in a range (a buffer boundary anywhere in it is hit by one of them)
+EXTRA_PROGRAMS += [_closing_run(d) for d in range(4, 12)]
+
